@@ -369,6 +369,18 @@ def run_relink(kind, cmdw, cmdr):
         ident = bytes(s.inquiry().result.get("product_identification", b""))
         if ident != b"DISK-2".ljust(16):
             out.append(("sgio/relink/identity", "%s: INQUIRY reports %r, the path designates DISK-2" % (where, ident)))
+        if kind == "repoint":
+            # ... and back to the first disk (the very same node as at the start): A -> B -> A with a command on each
+            node.repoint_to(1)
+            c = bytearray(b"\xc3" * 512)
+            getattr(s, cmdw)(7, 1, c)
+            got = bytes(getattr(s, cmdr)(7, 1).datain)
+            if got != bytes(c) or disks[1].block_at(7) != bytes(c) or disks[2].block_at(7) == bytes(c):
+                out.append(("sgio/relink/back_to_first_disk", "%s and back to the first disk: block 7 read back %s..., first disk holds %s..., second disk %s..."
+                            % (where, got[:4].hex(), disks[1].block_at(7)[:4].hex(), disks[2].block_at(7)[:4].hex())))
+            ident = bytes(s.inquiry().result.get("product_identification", b""))
+            if ident != b"DISK-1".ljust(16):
+                out.append(("sgio/relink/identity", "%s and back: INQUIRY reports %r, the path designates DISK-1 again" % (where, ident)))
     finally:
         if dev is not None:
             try:
